@@ -36,6 +36,30 @@ def corpus_cases(ctx, rnd):
     return lines
 
 
+def directed_cases(rnd):
+    """headers in which a field is assigned twice (a level-1 base name followed by a file-name extended header; the same
+    extended header twice: file name, path, user name, group name, common header), so that the decoder has an old
+    value in hand while it allocates the new one -- the interesting moment for an allocation failure"""
+    import struct, lhabuild as lb
+    lines = []
+    data = b"hello"
+    def member(lv, name, exts):
+        f = {"level": lv, "method": b"-lh0-", "clen": len(data), "length": len(data), "crc": lb.crc16(data), "os": T.U, "attr": 0x20,
+             "time": T.DOS_B if lv == 1 else T.T_A, "exts": exts}
+        if lv == 1:
+            f["name"] = name
+        return lb.build_header(f) + data
+    dup = [[(1, b"first.txt"), (1, b"second name.txt")], [(2, b"a\xff"), (2, b"b\xffc\xff"), (1, b"f")],
+           [(1, b"f"), (0x52, b"user1"), (0x52, b"user-two")], [(1, b"f"), (0x53, b"grp"), (0x53, b"group2")],
+           [(1, b"n|target1"), (0x50, struct.pack("<H", 0o120777)), (1, b"n|t2")], [(1, b"f"), (2, b"d\xff"), (1, b"g"), (2, b"e\xff")]]
+    for lv in (1, 2, 3):
+        for exts in dup:
+            arc = member(lv, b"BASENAME.TXT" if lv == 1 else b"", exts) + member(2, b"", [(1, b"after")]) + b"\0"
+            for ops in (["n", "c", "n", "x", "n"], ["n", "n", "n"]):
+                lines.append(T.case(rnd.choice(T.KINDS), "eod", arc, ops))
+    return lines
+
+
 def cases(ctx, rnd, pool):
     lines = []
     alpha = ["n", "r5", "r100000", "c", "x"]
@@ -73,7 +97,8 @@ def run(ctx):
     try:
         drvm = build(cb)
         mode = common.sh([drvm, "--probe"])[1].strip()
-        lines, n_ex = corpus_cases(ctx, rnd), 0
+        directed = directed_cases(rnd)
+        lines, n_ex = directed + corpus_cases(ctx, rnd), 0
         # minimised failures of earlier runs, with their failing request: run first
         kept = [l.strip() for l in open(os.path.join(common.VERIF, "corpus", "C20", "ext_alloc_silent.txt")) if l.startswith("rdr ")]
         try:
@@ -114,7 +139,7 @@ def run(ctx):
                 mism.append({"case": l[:6000], "c": cc, "model": mm, "what": "live block count after an operation differs"})
         # ------------------------------------------------------------ 2. every allocation request fails in turn
         cands = sorted(zip(lines, cout), key=lambda lc: (len(lc[0]) > 9000, hashlib.md5(lc[0].encode()).hexdigest()))
-        cands = cands[:(120 if ctx.quick else 2500)]
+        cands = [lc for lc in zip(lines, cout_rq) if lc[0] in set(directed)] + cands[:(120 if ctx.quick else 2500)]
         inj = list(kept)
         for l in kept:
             t = l.split()
@@ -171,7 +196,7 @@ def run(ctx):
                "rule": "histories: every protocol-respecting op sequence over {n, r5, r100000, c, x} up to length %d x 12 small "
                        "archives x 3 directory policies x stream kinds in rotation (%d cases), random protocol-respecting sequences "
                        "(extract-everything style and mixed) over generated archives with nested directories, dangerous symlinks, "
-                       "MacBinary members, damaged and truncated members, cut at random points, and the repository's own archives; "
+                       "MacBinary members, damaged and truncated members, cut at random points, the repository's own archives, and headers that assign a field twice (base name + file-name header; duplicate name / path / user / group headers); "
                        "for each: allocator balance after lha_reader_free + stream free must be 0 blocks / 0 FILE handles, and the "
                        "ledger's predicted live-block count must equal the allocator's after EVERY call.  Then for %d of the cases "
                        "every allocation request k = 1..n of the fault-free run is made to fail in turn (%d runs, %d reached the "
